@@ -258,28 +258,35 @@ def map_funcs(funcs, extracted):
 
 
 def scan_trusted(gen_path):
-    """mechanical scan of a generated file for unproved assumptions"""
+    """mechanical scan of a generated file for unproved assumptions: every definition marked external_body (functions,
+    axioms, opaque types), every assume_specification, every admit()/assume()"""
     txt = open(gen_path).read().split("\n")
     out = []
     for i, l in enumerate(txt):
-        if re.search(r"external_body|assume_specification|\badmit\s*\(|\bassume\s*\(|external_fn_specification|#\[verifier::external\]|axiom", l):
-            # name: next fn line
-            name = ""
+        if "//" in l:
+            l = l[:l.index("//")] if not l.strip().startswith("#") else l
+        if re.search(r"#\[verifier::external_body\]|#\[verifier::external\]|external_fn_specification", l):
+            name, kind = "", "external_body"
             for k in range(i, min(i + 6, len(txt))):
-                mm = re.search(r"\bfn\s+([A-Za-z0-9_]+)", txt[k])
+                mm = re.search(r"\b(proof\s+fn|fn|struct|enum)\s+([A-Za-z0-9_]+)", txt[k])
                 if mm:
-                    name = mm.group(1)
+                    name = mm.group(2)
+                    if mm.group(1).startswith("proof"):
+                        kind = "axiom (external_body proof fn)"
+                    elif mm.group(1) in ("struct", "enum"):
+                        kind = "opaque type"
                     break
-                mm = re.search(r"assume_specification.*\[\s*(.+?)\s*\]", txt[k])
-                if mm:
-                    name = mm.group(1)
-                    break
-            out.append("%s (%s)" % (name or l.strip()[:60], re.search(r"external_body|assume_specification|admit|assume|external_fn_specification|external|axiom", l).group(0)))
+            if name:
+                out.append("%s (%s)" % (name, kind))
+        mm = re.search(r"assume_specification\s*(?:<[^\[]*>)?\s*\[\s*(.+?)\s*\]\s*\(", l)
+        if mm:
+            out.append("%s (assume_specification)" % mm.group(1))
+        mm = re.search(r"^\s*pub trait\s+([A-Za-z0-9_]+)", l)
+        if mm:
+            out.append("%s (trait: the contracts of its methods are assumed of every implementor)" % mm.group(1))
+        if re.search(r"\badmit\s*\(|\bassume\s*\(", l):
+            out.append("line %d: %s (admit/assume)" % (i + 1, l.strip()[:80]))
     return sorted(set(out))
-
-
-# ------------------------------------------------------------------------------------------------
-# replay crate (real /repo code): witness search and bounded enumerations
 
 
 def replay_bin(profile="release"):
